@@ -29,7 +29,7 @@ func (w *World) purityEntries() []entryPoint {
 		out = append(out, entryPoint{name, fn, allowed})
 	}
 	add("exec.Exec", w.member("exec", "Exec"), nil)
-	add("exec.Unmarshal", w.member("exec", "Unmarshal"), map[string]string{"P1": "the Unmarshal target is written by design"})
+	add("exec.Unmarshal", w.member("exec", "Unmarshal"), map[string]string{"P1": "the Unmarshal target is written by design", "P1*": "the Unmarshal target (fields, elements, pointees) is written by design"})
 	add("exec.GetCursorString", w.member("exec", "GetCursorString"), nil)
 	for _, t := range []string{"Bool", "Number", "String", "NodeSet"} {
 		for _, m := range []string{"String", "Number", "Bool"} {
@@ -49,6 +49,12 @@ func checkC13(w *World) {
 	docRule(P, "R13.3", "advisory", "map iterations whose order could reach a result are listed (not armed): bsr.Set.GetRoots and parser.call in generated code.")
 	e := w.Effects()
 	entries := w.purityEntries()
+	for _, ep := range entries {
+		if ep.Fn != nil {
+			e.summary(ep.Fn)
+		}
+	}
+	e.settle()
 	for _, ep := range entries {
 		if ep.Fn == nil {
 			w.undecided(P, "R13.1", "entry point "+ep.Name, 0, "entry point not found")
